@@ -14,6 +14,8 @@ package main
 //     and the regular expression of `fmtPat`.
 //  4. INDEX / SLICE SITES of ClearString, String and TransCtrlSeq (type site17): every expression x[i] / x[lo:hi] with
 //     the conditions that enclose it (the bounds guards), for the "rendering never panics" clause.
+//  5. ALL FUNCTIONS: the names of every function of message.go, nbtmessage.go, jsonmessage.go and decoration.go
+//     (Proofs/C17_skel.v compares them with the names that carry an interpretation lemma).
 //  3. FUNCTION SKELETONS (type cstmt17): Message.ClearString / String, TransCtrlSeq, Text, Message.ReadFrom /
 //     WriteTo / TagType / MarshalNBT / UnmarshalNBT, nbtArgs, TranslateArgs.UnmarshalNBT / UnmarshalJSON,
 //     JsonMessage.ReadFrom / WriteTo, Message.MarshalJSON / UnmarshalJSON, Type.ReadFrom / WriteTo.  Control
@@ -639,6 +641,36 @@ func genC17(repo string) (res string, err error) {
 			coq = "chat_" + fn.recv + "_" + fn.name
 		}
 		fmt.Fprintf(&out, "(* chat/%s *)\nDefinition %s : cfun17 :=\n  (%s,\n   %s).\n\n", fn.file, coq, c17q(sig), c17block(body, "   "))
+	}
+	// 5. every function of message.go, nbtmessage.go, jsonmessage.go, decoration.go, in source order
+	{
+		var rows []string
+		for _, n := range []string{"message.go", "nbtmessage.go", "jsonmessage.go", "decoration.go"} {
+			for _, d := range files[n].Decls {
+				fd, ok := d.(*ast.FuncDecl)
+				if !ok {
+					continue
+				}
+				name := fd.Name.Name
+				if fd.Recv != nil {
+					if len(fd.Recv.List) != 1 {
+						c.fail(fd, "unknown receiver shape")
+					}
+					ty := fd.Recv.List[0].Type
+					if st, ok := ty.(*ast.StarExpr); ok {
+						ty = st.X
+					}
+					id, ok := ty.(*ast.Ident)
+					if !ok {
+						c.fail(fd, "unknown receiver type %s", c.text(ty))
+					}
+					name = id.Name + "." + name
+				}
+				rows = append(rows, c17q(name))
+			}
+		}
+		out.WriteString("(* every function of chat/message.go, nbtmessage.go, jsonmessage.go and decoration.go, in source order *)\n")
+		fmt.Fprintf(&out, "Definition chat_all_funcs : list string :=\n  [ %s ].\n\n", strings.Join(rows, ";\n    "))
 	}
 	// 4. the index / slice expressions of the renderers with their enclosing conditions
 	for _, fn := range c17funcs {
